@@ -78,8 +78,11 @@ pub fn clip_line(
 /// the threshold are of 0.01 is used since
 /// lines may not be very aligned.
 pub fn is_collinear(a: &Point, b: &Point, c: &Point) -> bool {
-    use std::ops::Deref;
-    Triangle::new(*a.deref(), *b.deref(), *c.deref()).area() < 0.01
+    // the area of the triangle from the cross product of two of its sides: no square
+    // roots, so it is exact for points on the cell grid. (Heron/Kahan over the three f32
+    // side lengths drifted above the threshold for long diagonals and split them.)
+    let cross = (b.x - a.x) * (c.y - a.y) - (b.y - a.y) * (c.x - a.x);
+    cross.abs() * 0.5 < 0.01
 }
 
 pub fn pad(v: f32) -> f32 {
